@@ -310,6 +310,7 @@ std::string job_c09(const Args& a) {
       }
     }
     const bool p32 = a.i("precision", 64) == 32;
+    const bool premerge = a.i("premerge", 0) != 0;
     for (auto& fl : cases) {
       StoredMesh sm = base;
       bool any = false;
@@ -326,6 +327,19 @@ std::string job_c09(const Args& a) {
       }
       tested++;
       MeshGL64 g = SimStore::load(sm);
+      if (premerge) {
+        // MeshGL::Merge() is the operation a caller runs on a mesh of unknown provenance before importing it:
+        // it takes the same malformed structures and must return normally too
+        if (p32) {
+          MeshGL g32 = narrow<MeshGL>(g);
+          (void)g32.Merge();
+          (void)Manifold(g32).Status();
+        } else {
+          MeshGL64 gm = g;
+          (void)gm.Merge();
+          (void)Manifold(gm).Status();
+        }
+      }
       Manifold m = p32 ? Manifold(narrow<MeshGL>(g)) : Manifold(g);
       Verdict v = consume(m, &tolerated);
       statuses[std::to_string(v.status)]++;
